@@ -118,6 +118,26 @@ func init() {
 		Old: "if allowAborted && tpe.Equal(nestedArchetypeAborted) {", New: "if allowAborted || tpe.Equal(nestedArchetypeAborted) {", Expect: "handleResponseValue"})
 	seed(Seed{Name: "shared-cell-abort-keeps-write", Prop: "C07", Rule: "CELL-RESTORE", File: "distsys/archetyperesource.go",
 		Old: "\tres.value = res.oldValue\n\treturn nil", New: "\treturn nil", Expect: "LocalArchetypeResource"})
+	seed(Seed{Name: "range-skips-its-elements", Prop: "C03", Rule: "OP-DECISION", File: tla + "symbols.go",
+		Old: "\tfor i := from; i <= to; i++ {", New: "\tfor i := from; i < to; i++ {", Expect: "ModuleDotDotSymbol"})
+	seed(Seed{Name: "crossproduct-skips-a-level", Prop: "C03", Rule: "OP-DECISION", File: tla + "builtins.go",
+		Old: "helper(tuple.Append(elem), idx+1)", New: "helper(tuple.Append(elem), idx+2)", Expect: "CrossProduct"})
+	seed(Seed{Name: "subseq-bounds-one-sided", Prop: "C03", Rule: "OP-DECISION", File: tla + "symbols.go",
+		Old: "require(from <= to && from >= 1 && to <= tuple.Len(),", New: "require(from <= to && from >= 1 || to <= tuple.Len(),", Expect: "ModuleSubSeq"})
+	seed(Seed{Name: "except-evaluates-before-last-key", Prop: "C03", Rule: "OP-DECISION", File: tla + "builtins.go",
+		Old: "\t\tif len(keys) == 0 {\n\t\t\treturn value(source)", New: "\t\tif len(keys) <= 1 {\n\t\t\treturn value(source)", Expect: "FunctionSubstitution"})
+	seed(Seed{Name: "set-decode-drops-elements", Prop: "C05", Rule: "GOB-REBUILD", File: tla + "value.go",
+		Old: "\t\tbuilder.Set(elem, true)\n\t}\n}\n\nfunc (v *valueSet) IsSet()", New: "\t}\n}\n\nfunc (v *valueSet) IsSet()", Expect: "valueSet.GobDecode"})
+	seed(Seed{Name: "lww-decode-forgets-removals", Prop: "C12", Rule: "GOB-REBUILD", File: res + "lww.go",
+		Old: "\t\ts.remSet = builder.Map()\n", New: "", Expect: "installs-remSet"})
+	seed(Seed{Name: "vclock-inc-restarts-present-component", Prop: "C18", Rule: "VAL-DECISION", File: tla + "vclock.go",
+		Old: "\tidxVal, ok := clock.clock.Get(keyTuple)\n\tif !ok {", New: "\tidxVal, ok := clock.clock.Get(keyTuple)\n\tif ok {", Expect: "VClock.Inc"})
+	seed(Seed{Name: "wrapcausal-forgets-carried-clock", Prop: "C18", Rule: "VAL-DECISION", File: tla + "value.go",
+		Old: "\tif existingClock := value.GetVClock(); existingClock != nil {\n\t\tclock = clock.Merge(*existingClock)\n\t}\n", New: "", Expect: "WrapCausal"})
+	seed(Seed{Name: "select-element-off-by-one", Prop: "C10", Rule: "SELECT-DECISION", File: tla + "value.go",
+		Old: "\tfor ; i < idx && !it.Done(); i++ {", New: "\tfor ; i <= idx && !it.Done(); i++ {", Expect: "SelectElement"})
+	seed(Seed{Name: "function-single-bound-keyed-by-tuple", Prop: "C03", Rule: "FUNC-DECISION", File: tla + "value.go",
+		Old: "\t\t\tif len(bodyArgs) == 1 {\n\t\t\t\tbuilder.Set(bodyArgs[0], body(bodyArgs))", New: "\t\t\tif len(bodyArgs) == 0 {\n\t\t\t\tbuilder.Set(bodyArgs[0], body(bodyArgs))", Expect: "MakeFunction"})
 	seed(Seed{Name: "merge-second-loop-reuses-iterator", Prop: "C12", Rule: "ITER-FRESH", File: res + "aworset.go",
 		Old: "\ti = remK.Iterator()\n", New: "", Expect: "AWORSet.Merge"})
 }
